@@ -118,7 +118,137 @@ LOCS = ['a/foo', 'a/foobar', 'a/foo/bar', 'a/foo/bar/baz', 'a/fo', 'a/b',
         'a/.hidden', 'a/b..c', '..a/b', 'a/...', '. /x', ]
 
 
+def gen_nested_case(rng, index, tier):
+    """entries whose original locations are nested (a file, then the directory
+    that held it, trashed one after the other) and a reply naming them in some
+    order: the indices are restored in the order typed"""
+    L, trashes, _ = trashworld.make(rng, index, n_entries=0, volumes=[],
+                                    home_own=False, xdg='unset', tz=None)
+    t = trashes[0]
+    ents = []
+    D = 'top/proj %d' % (index % 7)
+
+    def add(name, loc, date, kind):
+        e = trashgen.add_trashed(L, rng, t['rel'], name, loc, date, kind,
+                                 'c%d%s' % (index, name), volume_rel='',
+                                 home=t['home'])
+        ents.append(e)
+    add('x', D + '/x.txt', '2012-01-01T10:00:00', 'file')
+    add('D', D, '2012-01-01T10:00:05', rng.choice(['tree', 'dir_empty']))
+    if rng.random() < 0.5:
+        add('y', D + '/sub/deep/y', '2012-01-01T09:00:00', rng.choice(['file', 'empty']))
+    if rng.random() < 0.5:
+        add('o', 'top/other', '2012-01-02T00:00:00', 'file')
+    L.add({'p': 'top', 't': 'd'})
+    case = L.desc()
+    case['kind'] = 'nested'
+    case['entries'] = ents
+    case['sort'] = rng.choice([None, 'date', 'path', 'none'])
+    case['order'] = rng.random()         # which permutation of the listing
+    case['subset'] = rng.choice(['all', 'all', 'x+D', 'D+x'])
+    return case
+
+
+def run_nested(case):
+    import random
+    out = {'violations': [], 'obs': {}, 'features': ['nested', 'sort:%s' % case['sort']]}
+    obs = out['obs']
+    ents = case['entries']
+    with world.World(case) as w:
+        args = ['--sort', case['sort']] if case['sort'] else []
+        cwd = w.abs('top')
+        r0 = run.run(w, 'restore', args, stdin=b'\n', cwd=cwd, contracts=ALLC)
+        lst = trashio.parse_restore_listing(r0.outtext())
+        by_path = dict((w.abs(e['loc']), e) for e in ents)
+        if sorted(p for i, d, p in lst) != sorted(by_path):
+            out['verdict'] = 'inconclusive'
+            out['why'] = 'listing differs (C13 main oracle judges that)'
+            return out
+        idx_of = dict((by_path[p]['name'], i) for i, d, p in lst)
+        rng = random.Random(int(case['order'] * 10 ** 9))
+        if case['subset'] == 'x+D':
+            order = [idx_of['x'], idx_of['D']]
+        elif case['subset'] == 'D+x':
+            order = [idx_of['D'], idx_of['x']]
+        else:
+            order = list(idx_of.values())
+            rng.shuffle(order)
+        if rng.random() < 0.3:
+            order.append(order[0])                # an index given twice counts once
+        reply = ','.join(str(i) for i in order)
+        s0 = putcheck.norm_sig(w.snapshot())
+        r = run.run(w, 'restore', args, stdin=(reply + '\n').encode(), cwd=cwd,
+                    contracts=ALLC)
+        s1 = putcheck.norm_sig(w.snapshot())
+        if r.timeout or r.audit_ok() is False:
+            out['verdict'] = 'inconclusive'
+            out['why'] = 'watchdog' if r.timeout else 'audit mismatch'
+            return out
+        obs['nested_runs'] = 1
+        row = dict((i, by_path[p]) for i, d, p in lst)
+        # sequential model: typed order, first occurrence of an index counts,
+        # the first refusal (destination exists) ends the run
+        occupied = set(s0)
+        expect_restored, refused = [], None
+        seen = set()
+        for i in order:
+            if i in seen:
+                continue
+            seen.add(i)
+            e = row[i]
+            if e['loc'] in occupied:
+                refused = e
+                break
+            expect_restored.append(e)
+            pk = trashworld.pair_keys(e)[1]
+            occupied.add(e['loc'])
+            for k in snap.subtree(s0, pk):
+                if k:
+                    occupied.add(e['loc'] + '/' + k)
+            par = os.path.dirname(e['loc'])
+            while par and par not in occupied:
+                occupied.add(par)
+                par = os.path.dirname(par)
+
+        def viol(mech, **kw):
+            d = {'reply': reply, 'listing': lst, 'run': r.brief(),
+                 'expected_restored': [x['name'] for x in expect_restored],
+                 'expected_refused': refused and refused['name']}
+            d.update(kw)
+            out['violations'].append({'mechanism': mech, 'detail': d})
+        for e in ents:
+            st = trashworld.entry_state(s0, s1, e)
+            pk = trashworld.pair_keys(e)[1]
+            pay0 = snap.subtree(s0, pk)
+            at = snap.subtree(s1, e['loc'])
+            if any(e is x for x in expect_restored):
+                # every node of the payload is at the destination (a directory
+                # may have received other restored entries since)
+                ok = st == 'gone' and all(
+                    k in at and (at[k] == v or (v[0] == 'd' and at[k][:4] == v[:4]))
+                    for k, v in pay0.items())
+                if ok:
+                    obs['nested_restored'] = obs.get('nested_restored', 0) + 1
+                else:
+                    viol('chosen-entry-not-restored-in-typed-order/%s' % e['name'],
+                         state=st)
+            elif st != 'intact':
+                viol('entry-not-chosen-or-refused-but-changed/%s' % e['name'], state=st)
+        if refused is not None:
+            obs['nested_refusals'] = 1
+            if r.exit == 0:
+                viol('exit0-after-refusal')
+        elif r.exit != 0:
+            viol('nonzero-exit-though-all-restorable')
+    out['nontrivial'] = True
+    out['sample_obs'] = {'reply': reply, 'exit': r.exit}
+    out['verdict'] = 'violation' if out['violations'] else 'ok'
+    return out
+
+
 def gen_case(rng, index, tier):
+    if index % 20 == 7:
+        return gen_nested_case(rng, index, tier)
     if index % 3 == 0:
         return {'kind': 'direct', 'n': 500 if tier == 'quick' else 1000,
                 'seed': rng.getrandbits(48)}
@@ -263,6 +393,8 @@ def run_direct(case):
 def run_case(case):
     if case['kind'] == 'direct':
         return run_direct(case)
+    if case['kind'] == 'nested':
+        return run_nested(case)
     out = {'violations': [], 'obs': {}, 'features': ['e2e']}
     obs = out['obs']
     ents = case['entries']
